@@ -19,7 +19,7 @@ ASSUMPTIONS = [
 
 def tasks(tier):
     return [A.NegAcceptTask("C13/"), A.CheckIdentityTask("C13/"), codec.LayoutTask("A_ASSOCIATE_RQ", 1, "C13/"),
-            A.WireTitleTask("calling", "C13/"), A.WireTitleTask("called", "C13/"), A.UnbindTask("C13/")]
+            A.WireTitleTask("calling", "C13/"), A.WireTitleTask("called", "C13/"), A.UnbindTask("C13/"), _send_reject()]
 
 
 def replay(rec):
@@ -33,3 +33,8 @@ LEVEL_TEXT = ("_negotiate_as_acceptor executed symbolically over arbitrary title
               "implemented, raising, negative, positive).")
 LEVEL_NOTE = "trusted: pyvc, z3 (strings with uninterpreted strip), environment model of assoc/ae, callee contracts listed in the evidence."
 TECHNIQUE = "deductive: effect-trace contract on ACSE._negotiate_as_acceptor/_check_user_identity (AST->VC, z3)"
+
+
+def _send_reject():
+    from contracts.acse_neg import SendRejectTask
+    return SendRejectTask("C13/")
